@@ -124,6 +124,35 @@ pub fn relation_cases(extra: usize) -> Vec<NameCase> {
             }
         }
     }
+    // whatever the length bound: every pair of terminal names with one snake-case form
+    let have: std::collections::BTreeSet<String> = out.iter().map(|c| c.source.clone()).collect();
+    out.extend(snake_collision_cases().into_iter().filter(|c| !have.contains(&c.source)));
+    out
+}
+
+fn snake(name: &str) -> String {
+    let mut out = String::new();
+    for (i, c) in name.chars().enumerate() {
+        if i > 0 && c.is_uppercase() {
+            out.push('_');
+        }
+        out.push(c.to_ascii_lowercase());
+    }
+    out
+}
+
+/// Pairs of different terminal names (up to 4 characters) whose snake-case forms coincide (`AB` / `A_b`): the
+/// emitted helper methods `try_into_<snake>_<index>` differ only in their index.
+pub fn snake_collision_cases() -> Vec<NameCase> {
+    let set = name_set('A', 3);
+    let mut out = vec![];
+    for x in &set {
+        for y in &set {
+            if x != y && snake(x) == snake(y) {
+                out.push(NameCase { label: format!("T1={x},T2={y} (same snake-case form)"), source: render(&[(Role::T1, x), (Role::T2, y)]), duplicate_fields: false });
+            }
+        }
+    }
     out
 }
 
